@@ -926,7 +926,7 @@ def run(run):
     mr_ = [f for f in fx.fns_named('graphite2::vm::Machine::run') if 'call_machine' in f.where()]
     try:
         from . import ordint as O3_
-        cases_, bad_, fresh_ = actionseq_exec(run, vm, 3, 3 if getattr(run, 'tier', 'quick') == 'quick' else 4)
+        cases_, bad_, fresh_ = actionseq_exec(run, vm, 3, 4 if getattr(run, 'tier', 'quick') == 'quick' else 5)
         w_ = mr_[0].where() if mr_ else ''
         if bad_:
             run.violated('DETACH', i1_, w_, bad_)
